@@ -9,7 +9,7 @@
 (* evaluated in BigInt.                                                         *)
 EXTENDS Integers, Sequences, BigInt
 CONSTANT D                    \* levels of subdivision the scaling supports
-Pow8(n) == IF n = 0 THEN 1 ELSE IF n = 1 THEN 8 ELSE IF n = 2 THEN 64 ELSE IF n = 3 THEN 512 ELSE 4096
+Pow8(n) == 8 ^ n                \* D <= 8 keeps lattice coordinates up to 60 * 8^D inside TLC's 32-bit integers
 SC == Pow8(D)
 
 Half(p, q) == <<(p[1] + q[1]) \div 2, (p[2] + q[2]) \div 2>>            \* exact on the scaled lattice
